@@ -4,6 +4,7 @@ package main
 
 import (
 	"fmt"
+	"go/token"
 	"sort"
 	"strings"
 
@@ -490,6 +491,7 @@ func checkHasMin(r *Result, rule string) {
 	}}})
 	tm := NewTermer()
 	n := 0
+	direction := ""
 	for _, b := range cb.Blocks {
 		for _, in := range b.Instrs {
 			st, ok := in.(*ssa.Store)
@@ -505,6 +507,11 @@ func checkHasMin(r *Result, rule string) {
 			okShape, why := false, "the stored value is not accumulator.Add/Sub(delegation tokens)"
 			if call != nil {
 				name := CalleeName(call.Common())
+				if name == "(cosmossdk.io/math.Int).Add" {
+					direction = "up"
+				} else if name == "(cosmossdk.io/math.Int).Sub" {
+					direction = "down"
+				}
 				if (name == "(cosmossdk.io/math.Int).Add" || name == "(cosmossdk.io/math.Int).Sub") && len(call.Call.Args) == 2 {
 					ld, isLoad := call.Call.Args[0].(*ssa.UnOp)
 					own := isLoad && ld.X == ssa.Value(fv)
@@ -520,16 +527,82 @@ func checkHasMin(r *Result, rule string) {
 	}
 	r.check(n == 1, rule, "(x/reporter/keeper.Keeper).HasMin # one accumulator update in the callback", P.Pos(cb.Pos()), fmt.Sprint(n))
 	// the verdict compares the accumulator with the minimum handed in
-	okRet, nRet := true, 0
+	// counting up from zero the verdict is `minimum <= amount`; counting the missing amount down from the minimum it is
+	// `missing <= 0` (i.e. not positive): an account holding exactly the minimum has it
+	okRet, nRet, detRet := true, 0, ""
+	// the accumulator cell as seen from the outer function (the captured alloc) and from the callback (the free variable)
+	var accCell ssa.Value
+	var accFree *ssa.FreeVar
+	for _, b := range cb.Blocks {
+		for _, in := range b.Instrs {
+			if st, ok := in.(*ssa.Store); ok {
+				if fv, ok := st.Addr.(*ssa.FreeVar); ok && strings.Contains(fv.Type().String(), "math.Int") {
+					accFree = fv
+				}
+			}
+		}
+	}
+	for _, b := range hm.Blocks {
+		for _, in := range b.Instrs {
+			if mc, ok := in.(*ssa.MakeClosure); ok && mc.Fn == ssa.Value(cb) && accFree != nil {
+				for i, fv := range cb.FreeVars {
+					if fv == accFree && i < len(mc.Bindings) {
+						accCell = mc.Bindings[i]
+					}
+				}
+			}
+		}
+	}
+	isAccLoad := func(v ssa.Value) bool {
+		ld, ok := v.(*ssa.UnOp)
+		return ok && ld.Op == token.MUL && (ld.X == accCell || (accFree != nil && ld.X == ssa.Value(accFree)))
+	}
+	isMinVal := func(v ssa.Value) bool { return tm.Of(v).Contains("param:3:cosmossdk.io/math.Int") }
+	verdictOK := func(v ssa.Value) bool {
+		switch direction {
+		case "up": // acc.GTE(min)
+			c, ok := v.(*ssa.Call)
+			return ok && CalleeName(c.Common()) == "(cosmossdk.io/math.Int).GTE" && len(c.Call.Args) == 2 && isAccLoad(c.Call.Args[0]) && isMinVal(c.Call.Args[1])
+		case "down": // !missing.IsPositive()
+			n, ok := v.(*ssa.UnOp)
+			if !ok || n.Op != token.NOT {
+				return false
+			}
+			c, ok := n.X.(*ssa.Call)
+			return ok && CalleeName(c.Common()) == "(cosmossdk.io/math.Int).IsPositive" && len(c.Call.Args) == 1 && isAccLoad(c.Call.Args[0])
+		}
+		return false
+	}
 	for _, ret := range SuccessReturns(hm) {
-		v := tm.Of(ResultOf(ret, 0))
-		if v.Op == "const:false" {
+		v := ResultOf(ret, 0)
+		if c, isConst := v.(*ssa.Const); isConst && c.Value != nil && c.Value.String() == "false" {
 			continue
 		}
 		nRet++
-		if !(v.Contains("param:3:cosmossdk.io/math.Int") || v.Contains("local:")) {
-			okRet = false
+		if !verdictOK(v) {
+			okRet, detRet = false, clip(tm.Of(v).String(), 120)
 		}
 	}
-	r.check(okRet && nRet >= 1, rule, "(x/reporter/keeper.Keeper).HasMin # the verdict is taken from the running amount and the minimum", P.Pos(hm.Pos()), fmt.Sprintf("%d verdict returns", nRet))
+	for _, ret := range allReturns(cb) {
+		// the callback's stop flag: a constant, or the same verdict (short circuit)
+		if len(ret.Results) == 1 {
+			if _, isConst := ret.Results[0].(*ssa.Const); !isConst && !verdictOK(ret.Results[0]) {
+				okRet, detRet = false, "short circuit: "+clip(tm.Of(ret.Results[0]).String(), 120)
+			}
+		}
+	}
+	r.check(okRet && nRet >= 1, rule, "(x/reporter/keeper.Keeper).HasMin # the verdict is 'the bonded amount reaches the minimum' (holding exactly the minimum is enough)", P.Pos(hm.Pos()), fmt.Sprintf("%d verdict returns, counting %s %s", nRet, direction, detRet))
+}
+
+func allReturns(fn *ssa.Function) []*ssa.Return {
+	var out []*ssa.Return
+	for _, b := range fn.Blocks {
+		if len(b.Instrs) == 0 {
+			continue
+		}
+		if ret, ok := b.Instrs[len(b.Instrs)-1].(*ssa.Return); ok {
+			out = append(out, ret)
+		}
+	}
+	return out
 }
